@@ -12,7 +12,8 @@ class C01(RunProp):
                 'stage sequence runs (stack-machine check). The model is tied to the code by the exception_handlers table regenerated from '
                 'testcase.py on every run and by a differential check running generated TestCase classes against the model.',
         'note': 'trusted: Lean kernel; hand-written model TTV/Model/RunTest.lean; harness/mrun.py (program -> real TestCase, canonicalisation of '
-                'tracebacks to exception identities); hypothesis wf: distinct stage ids, user handlers only for Exception subclasses; '
+                'tracebacks to exception identities); hypothesis wf: distinct stage ids, user handlers only for Exception subclasses (wf has further conjuncts needed by '
+                'C02/C05 only: distinct initial attribute names, no user detail named "reason", pairwise distinct content objects); '
                 'CPython try/finally + fixtures library modelled, not verified',
         'technique': 'Lean 4 invariant proofs over an executable model of the runner (well-founded cleanup loop, fun_induction), generated handler table, differential correspondence',
     }
